@@ -206,7 +206,7 @@ PROPS = {
     },
     "C04": {
         "claim": "Theorems (for every graph, oracle, behaviour and fuel): a failing execution is the last execution of the call and its error is what Call returns; a successful call executed no failing function; the target's own error is reported by the accessor. Tied to the code by trace conformance on chains with failing converters at every depth (multi-input, struct-returning, memoised) with error identity checked through provenance ids.",
-        "note": "", "theorems": ["ArgMapper.C04.failing_execution_is_last", "ArgMapper.C04.ok_means_no_failure", "ArgMapper.C04.target_error_reported", "ArgMapper.C04.conv_error_verbatim"], "facts": {"r5SkipSame": "true", "r6NameTest": "true", "publishAfterUpdate": "true", "trackReaching": "true", "takeValuedNamed": "true", "hopCopies": "true", "memoCopy": "true"},
+        "note": "", "theorems": ["ArgMapper.C04.failing_execution_is_last", "ArgMapper.C04.ok_means_no_failure", "ArgMapper.C04.target_error_reported", "ArgMapper.C04.conv_error_verbatim", "ArgMapper.C04.conv_error_from_history", "ArgMapper.C04.failing_execution_is_last_hist", "ArgMapper.C04.ok_means_no_failure_hist"], "facts": {"r5SkipSame": "true", "r6NameTest": "true", "publishAfterUpdate": "true", "trackReaching": "true", "takeValuedNamed": "true", "hopCopies": "true", "memoCopy": "true"},
         "rule": "call: at least one function executed.",
         "runs": {"quick": [fam("call", 500, 0, "fail"), fam("call", 200, 0, "general"), fam("call", 150, 0, "gens"), fam("redef", 300, 0), fam("hist", 500, 0), fam("result", 800, 5), fam("race", 40, 8, "25f", bin="harness-race")],
                  "thorough": [fam("call", 50000, 0, "fail"), fam("call", 20000, 0, "general"), fam("call", 10000, 0, "gens"), fam("redef", 20000, 0), fam("hist", 30000, 0), fam("result", 30000, 5), fam("race", 800, 8, "40f", bin="harness-race")]},
